@@ -45,6 +45,7 @@ func propTable() map[string]PropSpec {
 			{Harness: "HarnessC11Parse", ArgSets: c11Args(level), Reach: []string{"C11.parse.end"}},
 			{Harness: "HarnessC11Write", ArgSets: c11Args(level), Reach: []string{"C11.write.end"}},
 			{Harness: "HarnessC11RoundTrip", ArgSets: c11Args(level), Reach: []string{"C11.rt.end"}},
+			{Harness: "HarnessC11RoundTripLater", ArgSets: [][]int64{{0}, {2}, {18}, {31}}, Reach: []string{"C11.later.end"}},
 		}
 	}
 	t["C11"] = PropSpec{
@@ -161,6 +162,7 @@ func propTable() map[string]PropSpec {
 			{Harness: "HarnessC14Desc", ArgSets: kinds, Reach: []string{"C14.desc.end"}},
 			{Harness: "HarnessC14Loop", ArgSets: loops, Reach: []string{"C14.loop.end"}},
 			{Harness: "HarnessC14Skip", ArgSets: skips, Reach: []string{"C14.skip.ok"}, MaxPaths: 200000},
+			{Harness: "HarnessC14LangLen", ArgSets: cross(ints(2, 6, 7, 8, 9, 12, 17, 19, 20, 22), ints(0, 2, 4)), Reach: []string{"C14.langlen.end"}, Asserts: []string{"C14."}},
 		}
 	}
 	t["C14"] = PropSpec{
@@ -216,6 +218,7 @@ func propTable() map[string]PropSpec {
 			{Harness: "HarnessC09HasCRC", Reach: []string{"C09.hascrc.end"}},
 			{Harness: "HarnessC09In", ArgSets: in, TimeoutMs: 20000, Reach: []string{"C09.in.accepted", "C09.in.rejected"}},
 			{Harness: "HarnessC13Encode", ArgSets: enc, Reach: []string{"C13.encode.end"}, Asserts: []string{"C09."}},
+			{Harness: "HarnessC14LangLen", ArgSets: cross(ints(2, 8, 12, 17, 19, 20), ints(0, 2, 3, 4)), Reach: []string{"C14.langlen.end"}, Asserts: []string{"C09."}},
 		}
 	}
 	t["C09"] = PropSpec{
@@ -233,7 +236,7 @@ func propTable() map[string]PropSpec {
 		if thorough {
 			hdrs = []int64{0, 1, 2}
 		}
-		for af := int64(0); af <= 3; af++ {
+		for af := int64(0); af <= 4; af++ {
 			for _, h := range hdrs {
 				for l := int64(0); l < 18; l++ {
 					for prior := int64(0); prior <= 1; prior++ {
@@ -433,6 +436,7 @@ func propTable() map[string]PropSpec {
 		Quick: []TaskSpec{
 			{Harness: "HarnessC19Skip", ArgSets: [][]int64{{0}, {1}}, Reach: []string{"C19.skip.end"}},
 			{Harness: "HarnessC19Parser", ArgSets: [][]int64{{0}, {1}, {2}}, Reach: []string{"C19.parser.end"}},
+			{Harness: "HarnessC19SkipRewind", ArgSets: [][]int64{{0}, {1}}, Reach: []string{"C19.rewind.end"}},
 		},
 		Bounds:  map[string]string{"quick": "5-packet stream (PAT, PMT, 2 PES units, one with AF stuffing): all 2^5 per-packet skipper decisions for NextPacket and NextData against the pre-filtered stream, callback arguments checked against an independent parse; packets parser as observer, replacer and failing parser"},
 		Outside: "longer streams; predicates are arbitrary per-packet decisions, which subsumes every predicate over header/AF on this stream"}
@@ -446,6 +450,7 @@ func propTable() map[string]PropSpec {
 	t["C16"] = PropSpec{ID: "C16",
 		Quick: []TaskSpec{
 			{Harness: "HarnessC16Alias", ArgSets: [][]int64{{0}, {1}}, Reach: []string{"C16.alias.end"}},
+			{Harness: "HarnessC16Pool", Reach: []string{"C16.pool.end"}},
 			{Harness: "HarnessC07Data", ArgSets: [][]int64{{0}, {2000}}, Reach: []string{"C07.data.end"}, Asserts: []string{"C16."}},
 			{Harness: "HarnessMuxWriteData", ArgSets: [][]int64{{0, 2, 9, 0}, {1, 1, 13, 1}, {2, 2, 4, 0}}, Reach: []string{"mux.writedata.end"}, Asserts: []string{"C16."}},
 		},
